@@ -23,6 +23,14 @@ def main():
             na.append({'property_id': pid, 'reason': NOT_BUILT_REASON})
             continue
         mod = importlib.import_module(f'sa.rules.{pid.lower()}')
+        rules = ''
+        ev = f'{VERIF}/evidence/{pid}.json'
+        if os.path.exists(ev):
+            try:
+                pr_ = json.load(open(ev))['coverage'].get('per_rule', {})
+                rules = ' Rules run by this check (own and those of the properties it depends on; see RULES.md): ' + ', '.join(pr_) + '.'
+            except Exception:
+                rules = ''
         checks.append({
             'property_id': pid,
             'quick_cmd': f'./check {pid} --tier quick',
@@ -33,14 +41,15 @@ def main():
             'level_claimed': {
                 'category': 'other',
                 'text': 'Static necessary conditions, decided on all CFG paths / call sites of the analysed functions of the '
-                        'current source (nothing is executed): ' + mod.EXPLANATION,
+                        'current source (nothing is executed): ' + mod.EXPLANATION + rules,
                 'design_ref': DESIGN_REF[pid],
             },
             'level_note': 'Trusted: CPython ast, the sa/ engine (CFG, resolver tables derived from the source, effect inlining), '
                           'and: ' + '; '.join(mod.ASSUMPTIONS) + '. Not a proof of the behavioural statement: the undecided '
                           'remainder is listed in DESIGN.md section 4.',
             'technique': getattr(mod, 'TECHNIQUE', 'static analysis: custom ast/CFG/call-graph rules (path, dominance, pairing, '
-                                                   'who-may-call, sibling agreement) over the parsed source'),
+                                                   'who-may-call, sibling agreement, epoch-validated reads, definite assignment) over the '
+                                                   'parsed and normalised source'),
         })
     m = {
         'version': 1,
